@@ -20,10 +20,21 @@ RULE = ('random base arrays (1-4 axes, 0-7 elements per axis, element = C-order 
         'shared or separately created dask arrays), fetched by ONE DaskLazyIndexer.get(...) (with and without out=) and '
         'compared output by output with the model, the spec, numpy and the one-by-one fetch; for contiguous worlds the '
         'get_chunk calls of the joint request are counted per store. A joint case is non-trivial when two indexers '
-        'differ only in the store or share a stored array; distinct by (shape, chunks, indexers, index).')
+        'differ only in the store or share a stored array; distinct by (shape, chunks, indexers, index). '
+        'Fault histories (stream lazy): 1-4 real DaskLazyIndexer objects (65 % nested over an earlier one, parents shared; '
+        '6 % with a malformed keep) with 0-3 instrumented transforms each, over da.from_array or a recording store; 2-6 '
+        'requests through .dataset/.shape/.dtype/len/str/iteration/indexer[k]/get([1-3 objects], k), 55 % of them with 1-2 '
+        'transform calls of the chain of the target raising during that request; the caller overwrites its index arrays '
+        'in 12 % of the gaps; per request the outcome, the delivered value, the transform calls made and the chunks read '
+        'before an element was requested are compared with the atomic, all-or-nothing, cached computation. A history is '
+        'non-trivial when a request after a faulted one exists and some object has >= 2 transforms; distinct by '
+        '(shape, objects, history).')
 ASSUMPTIONS = ['numpy outer indexing (np.take per axis) is the oracle; dask own slicing/take/cull/store are exercised, not modelled',
                'transforms of the correspondence: elementwise 2x+1 -> float64, x[..., 0], elementwise -x -> int32',
                'read sets are compared only for requests whose composed region is non-empty on every axis (F34 otherwise)',
+               'fault histories: a fault is an exception raised by a transform call (transient, per request); requests do '
+               'not overlap in time (thread interleavings of `dataset` are checked by C20); dataset.compute() over a '
+               'zero-length block left by a stepped slice is finding F54 (dask)',
                'joint reads: indexers of one stored array derive from one get_dask_array result or from identical calls '
                '(same dask name); two different index= views of one stored array are separate dask arrays and share nothing']
 
